@@ -97,7 +97,7 @@ class Run:
             self.ob(rule, inst + ".anchor", False, f"anchor missing: {e}", status="UNDISCHARGED",
                     detail="the code this rule is anchored in no longer resolves; the checker "
                            "cannot justify the clause (fail closed)")
-        except (KeyError, IndexError, AssertionError, TypeError, ValueError) as e:
+        except (KeyError, IndexError, AssertionError, TypeError, ValueError, AttributeError) as e:
             tb = traceback.format_exc(limit=4)
             self.ob(rule, inst + ".shape", False,
                     f"checker precondition failed while evaluating rule ({type(e).__name__}: {e})",
